@@ -16,6 +16,10 @@
 (*   sm_at_limit{token,cluster,ip,limit,res} the per-(cluster, ip) gate     *)
 (*   sm_track{token,cluster,ip,inserted,count}   Track                      *)
 (*   [sm_clear] sm_set_per_ip_limit{limit,previous}   SetPerIpLimit         *)
+(*   set_override{cluster,value}             SetOverride: the worker_cmd    *)
+(*                         event of an AddCluster the harness sent for an   *)
+(*                         existing cluster (matched by request id), so it  *)
+(*                         sits where the worker applied the change         *)
 (*   loop_idle{nb,can_accept,queue,slab,base,pool_used,backend_connections, *)
 (*             backend_requests,per_ip_slots,per_ip_tokens,per_ip_limit}    *)
 (*  harness                                                                 *)
@@ -24,6 +28,13 @@
 (*                         the harness still sees open (poll POLLRDHUP)     *)
 (*   client_close{port}    written BEFORE the close call                    *)
 (*   baseline{gauges} / quiesce{gauges}   every QueryMetrics gauge at rest  *)
+(*   backend_saw{port,cluster,epoch}  a backend of `cluster` (the harness   *)
+(*                         owns the backends) received a request / the     *)
+(*                         first bytes that client `port` had tagged;      *)
+(*                         epoch = wipes acknowledged when the client sent *)
+(*                         it.  Written after draining the hook channel:   *)
+(*                         a connection reaches a backend only through the *)
+(*                         gate, so its Track must be in the trace already *)
 (*   not_reclaimed / not_quiescent / worker_panic / gauge_underflow: no     *)
 (*                         action explains them - the trace is rejected     *)
 (* Every check is a guard: a rejected trace stops at the offending event.   *)
@@ -48,6 +59,7 @@ T_IpOf == [s \in T_Socks |-> "-"]              \* only Next uses IpOf; events ca
 T_Clusters == ToSet(Cfg.clusters) \cup {"c1"}
 T_Override == LET o == Cfg.overrides IN [c \in T_Clusters |-> IF c \in DOMAIN o THEN o[c] ELSE -1]
 T_Limits == 0..1000000
+T_OvrValues == -1..1000000
 T_EvictOn == Cfg.evict
 T_Sys == Cfg.sys
 
@@ -55,9 +67,14 @@ VARIABLES i,        \* next event to consume
           tserved,  \* sockets the harness counts as being served right now
           created,  \* ports for which the worker created a session (ever)
           idle,     \* the last loop_idle event, <<>> if something happened since
-          bl        \* the baseline: [gauges, idle] once taken
+          bl,       \* the baseline: [gauges, idle] once taken
+          wipes,    \* how often the tables were wiped (SetMaxConnectionsPerIp(0)) so far
+          gated,    \* history: <<client port, cluster, wipes>> for every Track - LinkAllowed became true for that
+                    \* connection and cluster in that epoch
+          pend      \* the gate answered "not at the limit" for <<token, cluster, ip>>: the slot must be recorded
+                    \* before the worker does anything else (<<>> = nothing pending)
 
-tvars == <<vars, i, tserved, created, idle, bl>>
+tvars == <<vars, i, tserved, created, idle, bl, wipes, gated, pend>>
 
 Ev == Trc[i]
 Is(e) == i <= N /\ Ev.ev = e
@@ -65,25 +82,30 @@ Step(k) == i' = i + k
 B(x) == IF x THEN 1 ELSE 0
 
 TInit == InitWith(0) /\ i = 1 /\ tserved = {} /\ created = {} /\ idle = <<>> /\ bl = <<>>
+         /\ wipes = 0 /\ gated = {} /\ pend = <<>>
 
 Same == UNCHANGED <<tserved, created, bl>>
-Touch == idle' = <<>>       \* the worker did something: the last snapshot is stale
+Hist == UNCHANGED <<wipes, gated, pend>>
+\* the worker did something: the last snapshot is stale - and it may only do so with no gate decision left open
+\* (cluster_ip_at_limit = false is followed by track_cluster_ip in the same run-to-completion step; harness
+\* events may fall in between, worker events may not)
+Touch == idle' = <<>> /\ pend = <<>>
 
 T_Skip ==
   /\ i <= N /\ Ev.ev \in {"cfg", "wave", "note", "close_sweep", "zombie_sweep"}
-  /\ Step(1) /\ UNCHANGED <<vars, tserved, created, idle, bl>>
+  /\ Step(1) /\ UNCHANGED <<vars, tserved, created, idle, bl>> /\ Hist
 
 T_Connect ==
   /\ Is("connect")
   /\ Connect(Ev.port)
-  /\ Step(1) /\ Same /\ UNCHANGED idle
+  /\ Step(1) /\ Same /\ UNCHANGED idle /\ Hist
 
 T_AcceptPush ==
   /\ Is("accept_push")
   /\ \E s \in (IF Ev.port = -1 THEN backlog ELSE {Ev.port}) : AcceptPush(s)
   /\ Ev.can_accept = 1
   /\ Ev.queue = Len(queue')
-  /\ Step(1) /\ Same /\ Touch
+  /\ Step(1) /\ Same /\ Touch /\ Hist
 
 T_Pop ==
   /\ Is("create_pop")
@@ -96,14 +118,14 @@ T_Pop ==
         /\ Ev.port = -1 \/ queue[k].sock = Ev.port
         /\ PopWith(k, IF Ev.timed_out = 1 THEN QT + 1 ELSE 0)
   /\ Ev.queue = Len(queue')
-  /\ Step(1) /\ Same /\ Touch
+  /\ Step(1) /\ Same /\ Touch /\ Hist
 
 T_CheckLimits ==
   /\ Is("sm_check_limits")
   /\ CheckLimitsWith(Ev.slab)
   /\ Ev.res = B(nb < Max /\ Ev.slab < SlabThreshold)
   /\ Ev.nb = nb /\ Ev.can_accept = B(canAccept')
-  /\ Step(1) /\ Same /\ Touch
+  /\ Step(1) /\ Same /\ Touch /\ Hist
 
 T_CreateDone ==
   /\ Is("create_done")
@@ -111,13 +133,13 @@ T_CreateDone ==
   /\ Ev.present = 1                       \* the session sits in the slot the hook announced
   /\ CreateOk(Ev.token, FALSE)
   /\ created' = created \cup {cs.sock}
-  /\ Step(1) /\ UNCHANGED <<tserved, bl>> /\ Touch
+  /\ Step(1) /\ UNCHANGED <<tserved, bl>> /\ Touch /\ Hist
 
 T_Incr ==
   /\ Is("sm_incr")
   /\ Incr
   /\ Ev.nb = nb' /\ Ev.can_accept = B(canAccept')
-  /\ Step(1) /\ Same /\ Touch
+  /\ Step(1) /\ Same /\ Touch /\ Hist
 
 \* create_sessions returns. With a socket admitted but no session created, create_session() failed.
 T_LoopEnd ==
@@ -125,13 +147,13 @@ T_LoopEnd ==
   /\ \/ cs.pc = "idle" /\ UNCHANGED vars
      \/ cs.pc = "admit" /\ CreateFail
   /\ Ev.queue = Len(queue)
-  /\ Step(1) /\ Same /\ Touch
+  /\ Step(1) /\ Same /\ Touch /\ Hist
 
 T_Evict ==
   /\ Is("evict")
   /\ \/ Ev.evicted = 0 /\ EvictNone
      \/ Ev.evicted >= 1 /\ cs.pc = "rechk" /\ UNCHANGED vars
-  /\ Step(1) /\ Same /\ Touch
+  /\ Step(1) /\ Same /\ Touch /\ Hist
 
 \* a session ends: [sm_untrack_all] session_close sm_decr, one run-to-completion step of the worker
 T_Close ==
@@ -150,21 +172,26 @@ T_Close ==
            /\ IF cs.pc = "evict" THEN EvictClose(t) ELSE Close(t, "complete")
            /\ dc.nb = nb' /\ dc.can_accept = B(canAccept')
      /\ Step(u + 2)
-  /\ Same /\ Touch
+  /\ Same /\ Touch /\ Hist
 
 T_AtLimit ==
   /\ Is("sm_at_limit")
   /\ Ev.token \in Toks /\ Ev.cluster \in Clusters /\ Ev.ip \in Ips
   /\ Ev.limit = EffLimit(Ev.cluster)
   /\ Ev.res = B(AtLimit(Ev.token, Ev.cluster, Ev.ip))
-  /\ Step(1) /\ UNCHANGED <<vars, tserved, created, bl>> /\ Touch
+  \* admitted: the slot is recorded next, whatever the limit (0 included)
+  /\ pend' = IF Ev.res = 0 THEN <<Ev.token, Ev.cluster, Ev.ip>> ELSE <<>>
+  /\ Step(1) /\ UNCHANGED <<vars, tserved, created, bl, wipes, gated>> /\ Touch
 
 T_Track ==
   /\ Is("sm_track")
   /\ Ev.inserted = B(<<Ev.cluster, Ev.ip>> \notin tracks[Ev.token])
   /\ Track(Ev.token, Ev.cluster, Ev.ip)
   /\ Ev.count = perIp'[<<Ev.cluster, Ev.ip>>]
-  /\ Step(1) /\ Same /\ Touch
+  /\ pend \in {<<>>, <<Ev.token, Ev.cluster, Ev.ip>>} /\ pend' = <<>>
+  /\ gated' = gated \cup {<<sess[Ev.token].sock, Ev.cluster, wipes>>}
+  /\ idle' = <<>> /\ UNCHANGED wipes
+  /\ Step(1) /\ Same
 
 T_SetLimit ==
   /\ i <= N /\ Ev.ev \in {"sm_clear", "sm_set_per_ip_limit"}
@@ -176,8 +203,23 @@ T_SetLimit ==
         /\ IF e.limit = perIpLimit /\ e.limit # 0
            THEN UNCHANGED vars
            ELSE SetPerIpLimit(e.limit)
+        /\ wipes' = wipes + u
         /\ Step(u + 1)
-  /\ Same /\ Touch
+  /\ Same /\ Touch /\ UNCHANGED <<gated, pend>>
+
+\* AddCluster again with another max_connections_per_ip, at the point where the worker handled the command
+T_SetOverride ==
+  /\ Is("set_override")
+  /\ Ev.cluster \in Clusters
+  /\ IF Ev.value = ovr[Ev.cluster] THEN UNCHANGED vars ELSE SetOverride(Ev.cluster, Ev.value)
+  /\ Step(1) /\ Same /\ Touch /\ Hist
+
+\* a backend of the cluster saw traffic of this client connection: the connection went through the gate, for this
+\* cluster, after the `epoch`-th wipe at the earliest (the client sent it after that wipe had been acknowledged)
+T_BackendSaw ==
+  /\ Is("backend_saw")
+  /\ \E e \in Ev.epoch..wipes : <<Ev.port, Ev.cluster, e>> \in gated
+  /\ Step(1) /\ UNCHANGED <<vars, tserved, created, idle, bl>> /\ Hist
 
 \* the worker goes back to sleep: its own counters agree with the spec state, and with no
 \* session left the footprint is the baseline
@@ -194,20 +236,21 @@ T_LoopIdle ==
   /\ Ev.pool_used >= 0 /\ Ev.backend_connections >= 0 /\ Ev.backend_requests >= 0
   /\ Quiet => /\ Ev.slab = Ev.base /\ Ev.pool_used = 0
               /\ Ev.backend_connections = 0 /\ Ev.backend_requests = 0
+  /\ pend = <<>>
   /\ idle' = Ev
-  /\ Step(1) /\ UNCHANGED <<vars, tserved, created, bl>>
+  /\ Step(1) /\ UNCHANGED <<vars, tserved, created, bl>> /\ Hist
 
 T_Served ==
   /\ Is("served")
   /\ Ev.port \in created                      \* a byte can only come from a session
   /\ ToSet(Ev.open) \subseteq tserved \cup {Ev.port}
   /\ tserved' = ToSet(Ev.open) \cup {Ev.port}
-  /\ Step(1) /\ UNCHANGED <<vars, created, idle, bl>>
+  /\ Step(1) /\ UNCHANGED <<vars, created, idle, bl>> /\ Hist
 
 T_ClientClose ==
   /\ Is("client_close")
   /\ tserved' = tserved \ {Ev.port}
-  /\ Step(1) /\ UNCHANGED <<vars, created, idle, bl>>
+  /\ Step(1) /\ UNCHANGED <<vars, created, idle, bl>> /\ Hist
 
 \* QueryMetrics at rest: every gauge is back to its baseline value
 AtRest == Quiet /\ backlog = {} /\ idle # <<>> /\ tserved = {}
@@ -215,19 +258,22 @@ T_Baseline ==
   /\ Is("baseline")
   /\ AtRest
   /\ bl' = [gauges |-> Ev.gauges, idle |-> idle]
-  /\ Step(1) /\ UNCHANGED <<vars, tserved, created, idle>>
+  /\ Step(1) /\ UNCHANGED <<vars, tserved, created, idle>> /\ Hist
 
 T_Quiesce ==
   /\ Is("quiesce")
   /\ AtRest /\ bl # <<>>
   /\ Ev.gauges = bl.gauges
   /\ idle.slab = bl.idle.slab /\ idle.pool_used = bl.idle.pool_used
+  \* the per-(cluster, ip) tables (the forward counts summed, the tokens of the reverse index, both read by the
+  \* worker itself): empty, whatever path the sessions of the wave died on
+  /\ idle.per_ip_slots = 0 /\ idle.per_ip_tokens = 0
   /\ canAccept                                 \* accepting has resumed
-  /\ Step(1) /\ UNCHANGED <<vars, tserved, created, idle, bl>>
+  /\ Step(1) /\ UNCHANGED <<vars, tserved, created, idle, bl>> /\ Hist
 
 TraceNext ==
   \/ T_Skip \/ T_Connect \/ T_AcceptPush \/ T_Pop \/ T_CheckLimits \/ T_CreateDone \/ T_Incr \/ T_LoopEnd
-  \/ T_Evict \/ T_Close \/ T_AtLimit \/ T_Track \/ T_SetLimit \/ T_LoopIdle
+  \/ T_Evict \/ T_Close \/ T_AtLimit \/ T_Track \/ T_SetLimit \/ T_SetOverride \/ T_BackendSaw \/ T_LoopIdle
   \/ T_Served \/ T_ClientClose \/ T_Baseline \/ T_Quiesce
 TraceSpec == TInit /\ [][TraceNext]_tvars
 
